@@ -1,7 +1,7 @@
 SPECIFICATION Spec
 CONSTANTS
   MaxComps = 3
-  Comps = {"a", "sub", "new", "..", ".", "", "long", "uni"}
+  Comps = {"a", "sub", "new", "..", ".", "", "long", "uni", "bs_up", "bs_abs"}
   Ops = {"read", "write", "ls", "grep", "apply_patch", "ckpt_create", "ckpt_rewind", "shell_cwd", "task_cwd"}
 INVARIANTS Emit GuardSound
 CHECK_DEADLOCK FALSE
